@@ -10,7 +10,7 @@ CONSTANT MaxOps
 
 VARIABLES hist, nops
 
-IsOp(e) == \/ e.ev \in {"build", "drop_barrier", "wait", "drop_handle", "poll"}
+IsOp(e) == \/ e.ev \in {"build", "drop_barrier", "wait", "drop_handle", "poll", "prep", "drop_prep"}
            \/ (e.ev = "trig" /\ ~e.unwind)      \* the guard's trigger during unwinding is produced by the code
 
 Done == cur = 0 /\ nops = MaxOps
